@@ -547,21 +547,305 @@ theorem mkBlobs_length (std : List String) (isCID : Bool) (fx : Fixed) (sc : Sec
   rw [mkBlobs_eq std isCID fx sc o hsc]
   simp [privBlobsAt]; omega
 
+/-! ### a closed bound on the number of passes: only the offset operands can grow, by four bytes each -/
+
+def opSlack (o o' : Operand) : Nat :=
+  match o, o' with
+  | .int v, .int v' => lenI v' - lenI v
+  | _, _ => 0
+
+def argsSlack : List Operand → List Operand → Nat
+  | a :: as, b :: bs => opSlack a b + argsSlack as bs
+  | _, _ => 0
+
+def entsSlack : DictL → DictL → Nat
+  | e :: es, e' :: es' => argsSlack e.2 e'.2 + entsSlack es es'
+  | _, _ => 0
+
+theorem opSlack_self (o : Operand) : opSlack o o = 0 := by
+  cases o <;> simp [opSlack]
+
+theorem argsSlack_self : ∀ a : List Operand, argsSlack a a = 0
+  | [] => rfl
+  | o :: as => by simp [argsSlack, opSlack_self, argsSlack_self as]
+
+theorem entsSlack_self : ∀ d : DictL, entsSlack d d = 0
+  | [] => rfl
+  | e :: es => by simp [entsSlack, argsSlack_self, entsSlack_self es]
+
+theorem entsSlack_append : ∀ (a a' b b' : DictL), a.length = a'.length →
+    entsSlack (a ++ b) (a' ++ b') = entsSlack a a' + entsSlack b b'
+  | [], [], b, b', _ => by simp [entsSlack]
+  | [], _ :: _, _, _, h => absurd h (by simp)
+  | _ :: _, [], _, _, h => absurd h (by simp)
+  | e :: es, e' :: es', b, b', h => by
+    simp only [List.cons_append, entsSlack, entsSlack_append es es' b b' (by simpa using h)]
+    omega
+
+theorem resolveArgs_slack (std : List String) : ∀ (a a' : List Operand) (c : List String), Rel2 OpLe a a' →
+    ((resolveArgs std c a').1.flatMap encodeOperand).length
+      ≤ ((resolveArgs std c a).1.flatMap encodeOperand).length + argsSlack a a' := by
+  intro a a' c h
+  induction h generalizing c with
+  | nil => exact Nat.le_refl _
+  | @cons o o' l l' ho _ ih =>
+    rcases ho with rfl | ⟨v, v', rfl, rfl, hv⟩
+    · cases o with
+      | str s =>
+        simp only [resolveArgs, argsSlack, opSlack]
+        have := ih (stringsLookup std c s).2
+        simp only [List.flatMap_cons, List.length_append]; omega
+      | int v =>
+        simp only [resolveArgs, argsSlack, opSlack]
+        have := ih c
+        simp only [List.flatMap_cons, List.length_append]; omega
+      | real n m e =>
+        simp only [resolveArgs, argsSlack, opSlack]
+        have := ih c
+        simp only [List.flatMap_cons, List.length_append]; omega
+    · simp only [resolveArgs, argsSlack, opSlack]
+      have := ih c
+      simp only [List.flatMap_cons, List.length_append, encodeOperand]
+      unfold lenI at hv ⊢
+      omega
+
+theorem resolveEntries_slack (std : List String) : ∀ (E E' : DictL) (c : List String), Rel2 EntLe E E' →
+    (encodeEntries (resolveEntries std c E').1).length
+      ≤ (encodeEntries (resolveEntries std c E).1).length + entsSlack E E' := by
+  intro E E' c h
+  induction h generalizing c with
+  | nil => exact Nat.le_refl _
+  | @cons e e' l l' he hl ih =>
+    obtain ⟨hk, ha⟩ := he
+    have h1 := resolveArgs_le std e.2 e'.2 c ha
+    have h3 := resolveArgs_slack std e.2 e'.2 c ha
+    simp only [resolveEntries, entsSlack]
+    rw [h1.1]
+    have h2 := ih (resolveArgs std c e'.2).2
+    simp only [encodeEntries, List.flatMap_cons, List.length_append] at h2 ⊢
+    rw [hk]
+    omega
+
+theorem insertByRank_slack (e e' : Nat × List Operand) (he : EntLe e e') : ∀ (l l' : DictL), Rel2 EntLe l l' →
+    entsSlack (insertByRank e l) (insertByRank e' l') = argsSlack e.2 e'.2 + entsSlack l l' := by
+  intro l l' h
+  induction h with
+  | nil => simp [insertByRank, entsSlack]
+  | @cons x x' t t' hx ht ih =>
+    simp only [insertByRank]
+    rw [← he.1, ← hx.1]
+    split
+    · simp [entsSlack]
+    · simp only [entsSlack, ih]; omega
+
+theorem sortDict_slack (d d' : DictL) (h : Rel2 EntLe d d') :
+    entsSlack (sortDict d) (sortDict d') = entsSlack d d' := by
+  unfold sortDict
+  have : ∀ (acc acc' : DictL), Rel2 EntLe acc acc' →
+      entsSlack (d.foldl (fun acc e => insertByRank e acc) acc) (d'.foldl (fun acc e => insertByRank e acc) acc')
+        = entsSlack acc acc' + entsSlack d d' := by
+    induction h with
+    | nil => intro acc acc' _; simp [entsSlack]
+    | cons he _ ih =>
+      intro acc acc' ha
+      simp only [List.foldl_cons, entsSlack]
+      rw [ih _ _ (insertByRank_rel _ _ he _ _ ha), insertByRank_slack _ _ he _ _ ha]
+      omega
+  have := this [] [] .nil
+  simpa [entsSlack] using this
+
+theorem encodeDictS_slack (std c : List String) (d d' : DictL) (h : Rel2 EntLe d d') :
+    (encodeDictS std c d').1.length ≤ (encodeDictS std c d).1.length + entsSlack d d' := by
+  rw [encodeDictS_eq, encodeDictS_eq, ← sortDict_slack d d' h]
+  exact resolveEntries_slack std _ _ c (sortDict_rel d d' h)
+
+theorem opSlack_le (o o' : Operand) : opSlack o o' ≤ 4 := by
+  cases o <;> cases o' <;> simp [opSlack]
+  rename_i v v'
+  have := lenI_range v; have := lenI_range v'; omega
+
+
+theorem argsSlack_le : ∀ (a a' : List Operand), argsSlack a a' ≤ 4 * a.length
+  | [], _ => by simp [argsSlack]
+  | _ :: _, [] => by simp [argsSlack]
+  | o :: as, o' :: bs => by
+    have := opSlack_le o o'
+    have := argsSlack_le as bs
+    simp only [argsSlack, List.length_cons]; omega
+
+theorem entsSlack_tail (base : DictL) (k : Nat) (a a' : List Operand) :
+    entsSlack (base ++ [(k, a)]) (base ++ [(k, a')]) ≤ 4 * a.length := by
+  rw [entsSlack_append _ _ _ _ rfl, entsSlack_self]
+  have := argsSlack_le a a'
+  simp [entsSlack]; omega
+
+theorem privBlob_slack (std : List String) (fx : Fixed) (o o' : List Int) (h : OffLe fx.privBase.length o o')
+    (i : Nat) (hi : i < fx.privBase.length) :
+    (privBlobAt std fx o' i).length ≤ (privBlobAt std fx o i).length + 4 := by
+  unfold privBlobAt
+  have h1 := encodeDictS_slack std [] _ _
+    (rel2_append (entLe_refl_list (fx.privBase.getD i [])) (.cons (entLe_mk 19 _ _ (.cons (intOp_le _ _ (h.2 i hi)) .nil)) .nil))
+  have h2 := entsSlack_tail (fx.privBase.getD i []) 19
+    [.int (o.getD (10 + fx.privBase.length) 0 - o.getD (10 + i) 0)]
+    [.int (o'.getD (10 + fx.privBase.length) 0 - o'.getD (10 + i) 0)]
+  simp only [List.length_singleton] at h2
+  omega
+
+theorem fdDict_slack (std : List String) (fx : Fixed) (o o' : List Int) (h : OffLe fx.privBase.length o o')
+    (i : Nat) (hi : i < fx.privBase.length) :
+    (fdDictAt std fx o' i).length ≤ (fdDictAt std fx o i).length + 8 := by
+  unfold fdDictAt
+  have h1 := encodeDictS_slack std [] _ _
+    (rel2_append (entLe_refl_list (fx.fdBase.getD i [])) (.cons (entLe_mk 18 _ _ (pdDesc_le std fx o o' h i hi)) .nil))
+  have h2 := entsSlack_tail (fx.fdBase.getD i []) 18 (pdDescAt std fx o i) (pdDescAt std fx o' i)
+  have : (pdDescAt std fx o i).length = 2 := rfl
+  omega
+
+theorem slack6 (a b b' c c' d d' e e' f f' : DictL) (hb : b.length = b'.length) (hc : c.length = c'.length)
+    (hd : d.length = d'.length) (he : e.length = e'.length) :
+    entsSlack (a ++ b ++ c ++ d ++ e ++ f) (a ++ b' ++ c' ++ d' ++ e' ++ f')
+      = entsSlack b b' + entsSlack c c' + entsSlack d d' + entsSlack e e' + entsSlack f f' := by
+  rw [entsSlack_append _ _ _ _ (by simp only [List.length_append, hb, hc, hd, he]),
+    entsSlack_append _ _ _ _ (by simp only [List.length_append, hb, hc, hd]),
+    entsSlack_append _ _ _ _ (by simp only [List.length_append, hb, hc]),
+    entsSlack_append _ _ _ _ (by simp only [List.length_append, hb]),
+    entsSlack_append _ _ _ _ rfl, entsSlack_self]
+  omega
+
+theorem top_slack (std : List String) (isCID : Bool) (fx : Fixed) (o o' : List Int) :
+    entsSlack (topAt std isCID fx o) (topAt std isCID fx o') ≤ 28 := by
+  have one : ∀ (k : Nat) (a a' : List Operand), entsSlack [(k, a)] [(k, a')] ≤ 4 * a.length := by
+    intro k a a'
+    have := argsSlack_le a a'
+    simp [entsSlack]; omega
+  have hp : (if isCID then [] else
+        (if fx.privBase.length > 0 then [(18, pdDescAt std fx o (fx.privBase.length - 1))] else [])).length
+      = (if isCID then [] else
+        (if fx.privBase.length > 0 then [(18, pdDescAt std fx o' (fx.privBase.length - 1))] else [])).length ∧
+      entsSlack
+      (if isCID then [] else
+        (if fx.privBase.length > 0 then [(18, pdDescAt std fx o (fx.privBase.length - 1))] else []))
+      (if isCID then [] else
+        (if fx.privBase.length > 0 then [(18, pdDescAt std fx o' (fx.privBase.length - 1))] else [])) ≤ 8 := by
+    cases isCID with
+    | true => simp [entsSlack]
+    | false =>
+      simp only [Bool.false_eq_true, if_false]
+      split
+      · have := one 18 (pdDescAt std fx o (fx.privBase.length - 1)) (pdDescAt std fx o' (fx.privBase.length - 1))
+        have h2 : (pdDescAt std fx o (fx.privBase.length - 1)).length = 2 := rfl
+        exact ⟨rfl, by omega⟩
+      · simp [entsSlack]
+  have h15 := one 15 [.int (o.getD 6 0)] [.int (o'.getD 6 0)]
+  have h17 := one 17 [.int (o.getD 8 0)] [.int (o'.getD 8 0)]
+  have h16 := one 16 [.int (o.getD 5 0)] [.int (o'.getD 5 0)]
+  have h7 := opSlack_le (.int (o.getD 7 0)) (.int (o'.getD 7 0))
+  have h9 := opSlack_le (.int (o.getD 9 0)) (.int (o'.getD 9 0))
+  simp only [List.length_singleton] at h15 h17 h16
+  unfold topAt
+  cases fx.encoding <;> cases fx.fdSelect <;> simp only <;> rw [slack6 (hb := hp.1)]
+  all_goals first
+    | rfl
+    | (simp only [entsSlack_self, entsSlack, argsSlack] at *; omega)
+
+theorem chooseOffSize_pos (a : Nat) : 1 ≤ chooseOffSize a := by
+  unfold chooseOffSize
+  repeat' split
+  all_goals omega
+
+theorem index_slack (a b : List Bytes) (h : BLe a b) (hb : idxOk b = true) :
+    (outOk (indexEncode b)).length + bodyLength a
+      ≤ (outOk (indexEncode a)).length + 3 * (a.length + 1) + bodyLength b := by
+  by_cases hne : a = []
+  · subst hne
+    have : b = [] := List.eq_nil_of_length_eq_zero h.1.symm
+    subst this
+    omega
+  · have hbne : b ≠ [] := by
+      intro h0; subst h0; exact hne (List.eq_nil_of_length_eq_zero h.1)
+    obtain ⟨h1, h2⟩ := idxOk_bounds b hb hbne
+    have ha := (index_le a b h hb).1
+    rw [index_len a ha hne, index_len b hb hbne, h.1]
+    have p1 := chooseOffSize_pos (bodyLength a)
+    have p2 := (chooseOffSize_le_iff (bodyLength b)).mpr h2
+    have m1 : (b.length + 1) * chooseOffSize (bodyLength b) ≤ (b.length + 1) * 4 := Nat.mul_le_mul_left _ p2
+    have m2 : (b.length + 1) * 1 ≤ (b.length + 1) * chooseOffSize (bodyLength a) := Nat.mul_le_mul_left _ p1
+    omega
+
+theorem bodyLength_slack {α : Type} (g g' : α → Bytes) (c : Nat) : ∀ (l : List α),
+    (∀ x ∈ l, (g' x).length ≤ (g x).length + c) → bodyLength (l.map g') ≤ bodyLength (l.map g) + c * l.length
+  | [], _ => by simp [bodyLength]
+  | x :: xs, h => by
+    have h1 := h x (List.mem_cons_self ..)
+    have h2 := bodyLength_slack g g' c xs (fun y hy => h y (List.mem_cons_of_mem _ hy))
+    simp only [bodyLength, List.map_cons, List.sum_cons, List.length_cons, Nat.mul_succ] at h2 ⊢
+    omega
+
+theorem secPos_app (A P : List Bytes) (x : Bytes) :
+    secPos (A ++ P ++ [x]) (A.length + P.length) = bodyLength A + bodyLength P := by
+  unfold secPos
+  have : (A ++ P ++ [x]).take (A.length + P.length) = A ++ P := by
+    rw [← List.length_append]; exact List.take_left' rfl
+  rw [this, length_flatten_eq]
+  simp [bodyLength, List.map_append, List.sum_append]
+
+theorem secPos_app10 (A P : List Bytes) (x : Bytes) (hA : A.length = 10) (np : Nat) (hP : P.length = np) :
+    secPos (A ++ P ++ [x]) (10 + np) = bodyLength A + bodyLength P := by
+  rw [← hA, ← hP]; exact secPos_app A P x
+
+/-- with longer offset operands the last section moves by at most 37 + 15 bytes per private DICT -/
+theorem lastSection_slack (std : List String) (isCID : Bool) (fx : Fixed) (sc : Secs) (o o' : List Int)
+    (hsc : StdSecs sc fx.privBase.length) (h : OffLe fx.privBase.length o o')
+    (hfit : mkBlobsFits std isCID fx sc o' = true) :
+    secPos (mkBlobs std isCID fx sc o') (sc.num - 1)
+      ≤ secPos (mkBlobs std isCID fx sc o) (sc.num - 1) + 37 + 15 * fx.privBase.length := by
+  have hnum : sc.num = 11 + fx.privBase.length := hsc.2.2.2.2.2
+  rw [mkBlobsFits_eq std isCID fx sc o' hsc] at hfit
+  rw [mkBlobs_eq std isCID fx sc o hsc, mkBlobs_eq std isCID fx sc o' hsc]
+  simp only [Bool.and_eq_true] at hfit
+  obtain ⟨⟨hf1, hf2⟩, hf3⟩ := hfit
+  obtain ⟨htop2, htop1⟩ := encodeDictS_le std fx.custom0 _ _ (top_le std isCID fx o o' h)
+  have htopS := encodeDictS_slack std fx.custom0 _ _ (top_le std isCID fx o o' h)
+  have hts := top_slack std isCID fx o o'
+  have hTop := index_slack [(encodeDictS std fx.custom0 (topAt std isCID fx o)).1]
+    [(encodeDictS std fx.custom0 (topAt std isCID fx o')).1] (ble_of_rel2 (.cons htop1 .nil)) hf2
+  simp only [bodyLength, List.map_cons, List.map_nil, List.sum_cons, List.sum_nil, List.length_singleton] at hTop
+  have hP := bodyLength_slack (privBlobAt std fx o) (privBlobAt std fx o') 4 (List.range fx.privBase.length)
+    (fun i hi => privBlob_slack std fx o o' h i (List.mem_range.mp hi))
+  have hFd : (if isCID = true then outOk (indexEncode ((List.range fx.privBase.length).map (fdDictAt std fx o'))) else []).length
+      ≤ (if isCID = true then outOk (indexEncode ((List.range fx.privBase.length).map (fdDictAt std fx o))) else []).length
+        + 3 + 11 * fx.privBase.length := by
+    cases isCID with
+    | true =>
+      simp only [if_true] at hf1 ⊢
+      have h1 := index_slack _ _ (fdDicts_le std fx o o' h) hf1
+      have h2 := bodyLength_slack (fdDictAt std fx o) (fdDictAt std fx o') 8 (List.range fx.privBase.length)
+        (fun i hi => fdDict_slack std fx o o' h i (List.mem_range.mp hi))
+      simp only [List.length_map, List.length_range] at h1 h2
+      omega
+    | false => simp
+  have lp : ∀ q, (privBlobsAt std fx q).length = fx.privBase.length := by intro q; simp [privBlobsAt]
+  rw [show sc.num - 1 = 10 + fx.privBase.length by omega, secPos_app10 _ _ _ rfl _ (lp o'),
+    secPos_app10 _ _ _ rfl _ (lp o), htop2]
+  simp only [bodyLength, List.map_cons, List.map_nil, List.sum_cons, List.sum_nil, List.length_cons, List.length_nil]
+  simp only [bodyLength, privBlobsAt, List.length_range] at hP ⊢
+  omega
+
 /-- The offset loop of `Write` reaches its fixed point: provided the Top DICT, the string INDEX and
 the FDArray fit an INDEX even when every offset operand takes five bytes (`hfit`; otherwise the Go
-code panics in `cffIndex.encode`), `writeLoop` with fuel `writeFuel` returns, the INDEXes of the
-final pass fit, and the number of passes is at most the difference between the position of the last
-section with five-byte operands everywhere and its position after the first pass, plus two. -/
+code panics in `cffIndex.encode`), `writeLoop` with fuel `writeFuel` = 40 + 15·(number of private
+DICTs) returns after at most 39 + 15·(number of private DICTs) passes, and the INDEXes of the final
+pass fit. -/
 theorem write_settles (std : List String) (isCID : Bool) (fx : Fixed) (sc : Secs)
     (hsc : StdSecs sc fx.privBase.length)
     (hfit : mkBlobsFits std isCID fx sc (bigOffs sc.num) = true) :
-    ∃ blobs offs k, writeLoop (mkBlobs std isCID fx sc) sc.num (writeFuel std isCID fx sc)
+    ∃ blobs offs k, writeLoop (mkBlobs std isCID fx sc) sc.num (writeFuel fx)
         (cumsum (initialBlobs fx)) 0 = some (blobs, offs, k) ∧
-      mkBlobsFits std isCID fx sc offs = true ∧
-      k + secPos (mkBlobs std isCID fx sc (cumsum (initialBlobs fx))) (sc.num - 1)
-        ≤ secPos (mkBlobs std isCID fx sc (bigOffs sc.num)) (sc.num - 1) + 2 := by
+      mkBlobsFits std isCID fx sc offs = true ∧ k ≤ 39 + 15 * fx.privBase.length := by
   have hnum : sc.num = 11 + fx.privBase.length := hsc.2.2.2.2.2
-  rw [hnum] at hfit ⊢
+  have hslack := lastSection_slack std isCID fx sc (cumsum (initialBlobs fx)) (bigOffs sc.num) hsc
+    (by rw [hnum]; exact offLe_big _ _) hfit
+  rw [hnum] at hfit hslack ⊢
   have hfitAll : ∀ b : List Bytes, mkBlobsFits std isCID fx sc (cumsum b) = true ∧
       BLe (mkBlobs std isCID fx sc (cumsum b)) (mkBlobs std isCID fx sc (bigOffs (11 + fx.privBase.length))) :=
     fun b => mkBlobs_le std isCID fx sc _ _ hsc (offLe_big _ _) hfit
@@ -576,27 +860,17 @@ theorem write_settles (std : List String) (isCID : Bool) (fx : Fixed) (sc : Secs
         ≤ secPos (mkBlobs std isCID fx sc (bigOffs (11 + fx.privBase.length))) (11 + fx.privBase.length - 1) :=
     fun b hb => (secPos_diff_mono _ _ (hfitAll b).2 _ _ (Nat.le_refl _) (by rw [hlen]; omega)).1
   have hinit := initial_le std isCID fx sc (cumsum (initialBlobs fx)) hsc
-  have hfuel : writeFuel std isCID fx sc
-      = secPos (mkBlobs std isCID fx sc (bigOffs (11 + fx.privBase.length))) (11 + fx.privBase.length - 1) + 1 := by
-    unfold writeFuel secPos; rw [hnum]
+  have hfuel : writeFuel fx = (39 + 15 * fx.privBase.length) + 1 := by unfold writeFuel; omega
   rw [hfuel]
   simp only [writeLoop]
   by_cases hs : sameOffs (11 + fx.privBase.length) (cumsum (mkBlobs std isCID fx sc (cumsum (initialBlobs fx))))
       (cumsum (initialBlobs fx)) = true
   · rw [if_pos hs]
-    refine ⟨_, _, _, rfl, (hfitAll _).1, ?_⟩
-    have := hU _ hinitLen
-    omega
+    exact ⟨_, _, _, rfl, (hfitAll _).1, by omega⟩
   · rw [if_neg hs]
-    have hs' : sameOffs (11 + fx.privBase.length) (cumsum (mkBlobs std isCID fx sc (cumsum (initialBlobs fx))))
-        (cumsum (initialBlobs fx)) = false := by
-      cases h : sameOffs (11 + fx.privBase.length) (cumsum (mkBlobs std isCID fx sc (cumsum (initialBlobs fx))))
-        (cumsum (initialBlobs fx)) <;> simp_all
-    have hg := grows_of_not_same _ _ (11 + fx.privBase.length) (by omega) hinitLen hinit hs'
     obtain ⟨blobs, b', k, hb', hw, hk⟩ := writeLoop_converges (mkBlobs std isCID fx sc) (11 + fx.privBase.length)
       (secPos (mkBlobs std isCID fx sc (bigOffs (11 + fx.privBase.length))) (11 + fx.privBase.length - 1)) (by omega)
-      hlen hmono hU
-      (secPos (mkBlobs std isCID fx sc (bigOffs (11 + fx.privBase.length))) (11 + fx.privBase.length - 1))
+      hlen hmono hU (39 + 15 * fx.privBase.length)
       (mkBlobs std isCID fx sc (cumsum (initialBlobs fx))) (0 + 1) (hlen _) (hmono _ _ hinitLen hinit) (by omega)
     exact ⟨blobs, cumsum b', k, hw, (hfitAll b').1, by omega⟩
 
@@ -617,19 +891,35 @@ theorem prepare_secs (std : List String) (f : FontIn) (fx : Fixed) (sc : Secs) (
         subst h1; subst h2
         simpa using stdSecs_mkSecs f
 
+theorem prepare_privs (std : List String) (f : FontIn) (fx : Fixed) (sc : Secs) (h : prepare std f = .ok (fx, sc)) :
+    fx.privBase.length = f.privs.length := by
+  unfold prepare at h
+  simp only at h
+  split at h
+  · cases h
+  · cases h
+  · split at h
+    · cases h
+    · cases h
+    · split at h
+      · cases h
+      · injection h with h
+        injection h with h1 h2
+        subst h1
+        simp
+
 /-- `Write` never runs out of passes: whenever the part before the loop succeeds and the INDEXes fit
-with five-byte offset operands, the model of `(*Font).Write` returns a file. -/
+with five-byte offset operands, the model of `(*Font).Write` returns a file, after at most
+39 + 15·(number of private DICTs) passes. -/
 theorem writeFont_ok (std : List String) (f : FontIn) (fx : Fixed) (sc : Secs) (hprep : prepare std f = .ok (fx, sc))
     (hfit : mkBlobsFits std f.ros.isSome fx sc (bigOffs sc.num) = true) :
-    ∃ file k, writeFont std f = .ok (file, k) ∧
-      k + secPos (mkBlobs std f.ros.isSome fx sc (cumsum (initialBlobs fx))) (sc.num - 1)
-        ≤ secPos (mkBlobs std f.ros.isSome fx sc (bigOffs sc.num)) (sc.num - 1) + 2 := by
+    ∃ file k, writeFont std f = .ok (file, k) ∧ k ≤ 39 + 15 * f.privs.length := by
   obtain ⟨blobs, offs, k, hw, hf, hk⟩ := write_settles std f.ros.isSome fx sc (prepare_secs std f fx sc hprep) hfit
+  rw [prepare_privs std f fx sc hprep] at hk
   refine ⟨blobs.flatten, k, ?_, hk⟩
   unfold writeFont
   rw [hprep]
   simp only [hw, hf, if_true]
-
 
 /-- the INDEXes written inside the loop fit even with five-byte offset operands everywhere (if not,
 `cffIndex.encode` panics in the Go code: more than 4 GiB of DICT or string data) -/
@@ -691,6 +981,7 @@ theorem cid_prepare_ok (std : List String) (f : FontIn) (r o : String) (sup : In
     (by intro x hx; exact hd.cidR x (by rw [htl]; exact List.mem_cons_of_mem _ hx))
     [] []
   exact ⟨_, _, prepare_cid std f r o sup hd.ros bs (by rw [htl]; exact hbs1) hi1 hi2⟩
+
 
 
 end SfntV.Cff
